@@ -425,45 +425,45 @@ Section Proofs.
     destruct (Z.eq_dec (p_status p) 200) as [E|E]; [exact E|exfalso].
     (* fail st never carries an envelope; mkResp 200 (Some _) has status 200 *)
     revert Hstep Henv E. clear. intros H Henv E.
-    assert (forall st, p = fail st -> False) as Hf by (intros st ->; discriminate).
+    assert (forall st c, p = mkResp st None c -> False) as Hf by (intros st c ->; discriminate).
     destruct e as [ps cs alg fs r|size cs alg f|n body f|listed f r|]; cbn in H.
     - unfold do_produce in H.
-      destruct (alg <? 0); [inversion H; subst; eapply Hf; eauto|].
-      destruct (nonempty cs && (alg =? 3)); [inversion H; subst; eapply Hf; eauto|].
-      destruct ps as [|first rest]; [inversion H; subst; eapply Hf; eauto|].
+      destruct (alg <? 0); [inversion H; subst; eapply Hf; reflexivity|].
+      destruct (nonempty cs && (alg =? 3)); [inversion H; subst; eapply Hf; reflexivity|].
+      destruct ps as [|first rest]; [inversion H; subst; eapply Hf; reflexivity|].
       assert (forall key obj w1, produce_finish hashf key (first :: rest) cs alg r (put_obj w1 key obj) = (w', p) -> False) as Hfin.
       { intros key obj w1 Hp. unfold produce_finish in Hp.
         destruct (nonempty cs && nonempty (checksum_of hashf alg (first :: rest)) &&
-                  negb (bytes_eqb cs (checksum_of hashf alg (first :: rest)))); [inversion Hp; subst; eapply Hf; eauto|].
-        destruct (broker_status r =? 200); inversion Hp; subst; [apply E; reflexivity|eapply Hf; eauto]. }
+                  negb (bytes_eqb cs (checksum_of hashf alg (first :: rest)))); [inversion Hp; subst; eapply Hf; reflexivity|].
+        destruct (broker_status r =? 200); inversion Hp; subst; [apply E; reflexivity|eapply Hf; reflexivity]. }
       destruct (match rest with [] => snd first <? c_min_part cfg | _ => false end).
-      + destruct (fst (next_fault fs)); [inversion H; subst; eapply Hf; eauto|]. eapply Hfin; eauto.
-      + destruct (fst (next_fault fs)); [inversion H; subst; eapply Hf; eauto|].
+      + destruct (fst (next_fault fs)); [inversion H; subst; eapply Hf; reflexivity|]. eapply Hfin; eauto.
+      + destruct (fst (next_fault fs)); [inversion H; subst; eapply Hf; reflexivity|].
         destruct (stream_parts cfg (first :: rest) 1 0 (snd (next_fault fs)) []) as [[st fs1] acc].
-        destruct (negb (st =? 200)); [inversion H; subst; eapply Hf; eauto|].
-        destruct (fst (next_fault fs1)); [inversion H; subst; eapply Hf; eauto|].
-        destruct (assemble acc 0 (listed_all acc)); [|inversion H; subst; eapply Hf; eauto].
+        destruct (negb (st =? 200)); [inversion H; subst; eapply Hf; reflexivity|].
+        destruct (fst (next_fault fs1)); [inversion H; subst; eapply Hf; reflexivity|].
+        destruct (assemble acc 0 (listed_all acc)); [|inversion H; subst; eapply Hf; reflexivity].
         eapply Hfin; eauto.
     - unfold do_init in H.
       repeat match type of H with (if ?c then _ else _) = _ => destruct c end;
-      inversion H; subst; eapply Hf; eauto.
+      inversion H; subst; eapply Hf; reflexivity.
     - unfold do_part in H.
       repeat match type of H with
       | (if ?c then _ else _) = _ => destruct c
       | (match ?c with _ => _ end) = _ => destruct c
-      end; inversion H; subst; eapply Hf; eauto.
+      end; inversion H; subst; eapply Hf; reflexivity.
     - unfold do_complete in H.
-      destruct (w_sess w) as [s|]; [|inversion H; subst; eapply Hf; eauto].
-      destruct (negb (s_total s =? s_size s)); [inversion H; subst; eapply Hf; eauto|].
-      destruct listed as [|l0 listed]; [inversion H; subst; eapply Hf; eauto|].
-      destruct (negb (forallb _ (l0 :: listed))); [inversion H; subst; eapply Hf; eauto|].
-      destruct (negb (listed_exact (l0 :: listed) 1 (s_next s))); [inversion H; subst; eapply Hf; eauto|].
-      destruct (f || negb (w_s3open w)); [inversion H; subst; eapply Hf; eauto|].
-      destruct (assemble (w_s3parts w) 0 (l0 :: listed)); [|inversion H; subst; eapply Hf; eauto].
+      destruct (w_sess w) as [s|]; [|inversion H; subst; eapply Hf; reflexivity].
+      destruct (negb (s_total s =? s_size s)); [inversion H; subst; eapply Hf; reflexivity|].
+      destruct listed as [|l0 listed]; [inversion H; subst; eapply Hf; reflexivity|].
+      destruct (negb (forallb _ (l0 :: listed))); [inversion H; subst; eapply Hf; reflexivity|].
+      destruct (negb (listed_exact (l0 :: listed) 1 (s_next s))); [inversion H; subst; eapply Hf; reflexivity|].
+      destruct (f || negb (w_s3open w)); [inversion H; subst; eapply Hf; reflexivity|].
+      destruct (assemble (w_s3parts w) 0 (l0 :: listed)); [|inversion H; subst; eapply Hf; reflexivity].
       destruct (nonempty (s_expect s) && nonempty (checksum_of hashf (s_alg s) (s_hashed s)) &&
-                negb (bytes_eqb (s_expect s) (checksum_of hashf (s_alg s) (s_hashed s)))); [inversion H; subst; eapply Hf; eauto|].
-      destruct (broker_status r =? 200); inversion H; subst; [apply E; reflexivity|eapply Hf; eauto].
-    - unfold do_abort in H. destruct (w_sess w); inversion H; subst; eapply Hf; eauto.
+                negb (bytes_eqb (s_expect s) (checksum_of hashf (s_alg s) (s_hashed s)))); [inversion H; subst; eapply Hf; reflexivity|].
+      destruct (broker_status r =? 200); inversion H; subst; [apply E; reflexivity|eapply Hf; reflexivity].
+    - unfold do_abort in H. destruct (w_sess w); inversion H; subst; eapply Hf; reflexivity.
   Qed.
 
   Lemma body_spec cfg y e y' p :
